@@ -42,6 +42,7 @@ class Interp:
         env.setdefault("min", min); env.setdefault("max", smax)
     def run(self, text):
         tree = ast.parse(text)
+        self.lines = text.split("\n")
         self.block(tree.body, self.env)
     def block(self, stmts, env):
         for s in stmts: self.stmt(s, env)
@@ -115,7 +116,12 @@ class Interp:
     # ---- expressions
     def expr(self, e, env):
         if isinstance(e, ast.Name):
-            if e.id not in env: raise ModelError("NameError: " + e.id)
+            if e.id not in env:
+                src = ""
+                lines = getattr(self, "lines", None)
+                if lines and 0 < getattr(e, "lineno", 0) <= len(lines):
+                    src = " @ " + lines[e.lineno - 1].strip()[:160]
+                raise ModelError("NameError: " + e.id + src)
             return env[e.id]
         if isinstance(e, ast.Constant): return e.value
         if isinstance(e, ast.Tuple): return tuple(self.expr(x, env) for x in e.elts)
